@@ -256,7 +256,13 @@ class Scheduler:
             return
         sys.settrace(self.global_trace)
         try:
-            for j, op in enumerate(self.plan['threads'][tid]):
+            ops = self.plan['threads'][tid]
+            order = list(range(len(ops)))
+            perm = self.plan['config'].get('perm')
+            if perm and self.nthreads == 1:
+                order = [j for j in perm if j < len(ops)] + [j for j in order if j not in perm]
+            for j in order:
+                op = ops[j]
                 self.in_op[tid] = True
                 out = op_outcome(op)
                 self.in_op[tid] = False
@@ -419,8 +425,12 @@ def make_plan(seed, tier='quick'):
             ops = ops + [dict(o) for o in rng.sample(ops, min(3, len(ops)))]     # repeated calls
         threads.append(ops)
     warm = rng.random() < 0.5
+    perm = None
+    if sequential:
+        perm = list(range(len(threads[0])))
+        rng.shuffle(perm)                    # the scheduled child runs the calls in another order
     cfg = {'quantum': rng.choice([3, 10, 30, 30, 100, 100, 300, 300, 1000, 3000]),
-           'warm': versions if warm else [], 'first': rng.randrange(nthreads), 'sequential': sequential}
+           'warm': versions if warm else [], 'first': rng.randrange(nthreads), 'sequential': sequential, 'perm': perm}
     return {'sim': 'threadsim', 'seed': seed, 'config': cfg, 'threads': threads, 'switches': []}
 
 
